@@ -80,89 +80,38 @@ pub fn observe(b: &Board) -> Result<Position, String> {
     p.turn = col_back(b.turn());
     p.half = b.half_move_clock() as u32;
     p.full = b.full_move_clock() as u32;
-    if let Err(why) = observe_rights_from_debug(b, &mut p) {
-        // The Debug rendering is not part of any property.  If it no longer has the shape this
-        // adaptor reads, fall back to the rights / e.p. fields of the FEN writer (the only other
-        // public view of them) and count it, so the evidence shows the weaker channel was used.
-        p.castle = [false; 4];
-        p.ep = None;
+    // castling rights and e.p. file: from the Debug rendering when that channel calibrates (see
+    // refmodel::textobs), otherwise from the FEN writer's fields - counted, so that the evidence
+    // shows which channel was used
+    let (castle, ep) = if debug_channel_ok() {
+        match refmodel::textobs::from_debug_text(&format!("{b:?}")) {
+            Ok(x) => x,
+            Err(why) => {
+                DEBUG_FALLBACKS.fetch_add(1, std::sync::atomic::Ordering::Relaxed);
+                refmodel::textobs::from_fen_text(&b.to_string()).map_err(|e| format!("{why}; fallback: {e}"))?
+            }
+        }
+    } else {
         DEBUG_FALLBACKS.fetch_add(1, std::sync::atomic::Ordering::Relaxed);
-        observe_rights_from_fen(b, &mut p).map_err(|e| format!("{why}; fallback: {e}"))?;
-    }
+        refmodel::textobs::from_fen_text(&b.to_string())?
+    };
+    p.castle = castle;
+    p.ep = ep;
     Ok(p)
 }
 
 /// Number of observations that could not use the Debug rendering (see `observe`).
 pub static DEBUG_FALLBACKS: std::sync::atomic::AtomicU64 = std::sync::atomic::AtomicU64::new(0);
 
-fn observe_rights_from_debug(b: &Board, p: &mut Position) -> Result<(), String> {
-    let dbg = format!("{b:?}");
-    let mut saw_rights = false;
-    for line in dbg.lines() {
-        if let Some(r) = line.strip_prefix("castle rights: ") {
-            saw_rights = true;
-            if r != "-" {
-                for ch in r.chars() {
-                    let i = match ch {
-                        'K' => 0,
-                        'Q' => 1,
-                        'k' => 2,
-                        'q' => 3,
-                        _ => return Err(format!("unexpected castle rights text {r:?}")),
-                    };
-                    if p.castle[i] {
-                        return Err(format!("duplicate right in {r:?}"));
-                    }
-                    p.castle[i] = true;
-                }
-            }
-        } else if let Some(e) = line.strip_prefix("en-passant: ") {
-            let f = match e.trim() {
-                "A" => 0,
-                "B" => 1,
-                "C" => 2,
-                "D" => 3,
-                "E" => 4,
-                "F" => 5,
-                "G" => 6,
-                "H" => 7,
-                _ => return Err(format!("unexpected en-passant text {e:?}")),
-            };
-            p.ep = Some(f);
-        }
-    }
-    if !saw_rights {
-        return Err("Debug rendering has no 'castle rights:' line".into());
-    }
-    Ok(())
-}
-
-fn observe_rights_from_fen(b: &Board, p: &mut Position) -> Result<(), String> {
-    let text = b.to_string();
-    let fields: Vec<&str> = text.split_whitespace().collect();
-    if fields.len() != 6 {
-        return Err(format!("FEN writer produced {} fields: {text:?}", fields.len()));
-    }
-    if fields[2] != "-" {
-        for ch in fields[2].chars() {
-            let i = match ch {
-                'K' => 0,
-                'Q' => 1,
-                'k' => 2,
-                'q' => 3,
-                _ => return Err(format!("unexpected castle rights field {:?}", fields[2])),
-            };
-            p.castle[i] = true;
-        }
-    }
-    if fields[3] != "-" {
-        let f = fields[3].as_bytes()[0];
-        if !(b'a'..=b'h').contains(&f) {
-            return Err(format!("unexpected en-passant field {:?}", fields[3]));
-        }
-        p.ep = Some(f - b'a');
-    }
-    Ok(())
+/// Does the Debug rendering reproduce rights and e.p. file on every calibration position?
+pub fn debug_channel_ok() -> bool {
+    static OK: std::sync::OnceLock<bool> = std::sync::OnceLock::new();
+    *OK.get_or_init(|| {
+        refmodel::textobs::calibration_positions().iter().all(|p| match chess_movegen::fen::parse_fen(p.to_fen().as_bytes()) {
+            Ok(b) => refmodel::textobs::from_debug_text(&format!("{b:?}")).ok() == Some((p.castle, p.ep)),
+            Err(_) => false,
+        })
+    })
 }
 
 /// Structural invariant of the eight bitboards: two colour sets disjoint, six piece sets pairwise
